@@ -25,4 +25,22 @@ macro_rules! inst {
     };
 }
 
+/// One harness instance that verifies with `$orig` replaced by `$stub` (Kani only).
+#[macro_export]
+macro_rules! inst_stub {
+    ($name:ident, $unwind:expr, $f:expr, $orig:path, $stub:path) => {
+        #[cfg(kani)]
+        #[kani::proof]
+        #[kani::unwind($unwind)]
+        #[kani::stub($orig, $stub)]
+        pub fn $name() {
+            $f()
+        }
+        #[cfg(not(kani))]
+        pub fn $name() {
+            $f()
+        }
+    };
+}
+
 pub mod inst;
